@@ -3,6 +3,7 @@ CONSTANTS
  Variants <- MCVariants
  NBk = 4
  Inits <- MCInits
+ RouteInits <- MCRouteInits
  Runs = 1
  QueuePersists = FALSE
  Crash1 <- MCNone
@@ -15,6 +16,7 @@ CONSTANTS
  DevSeqOpenEarly = FALSE
  DevLinkDirect = FALSE
  DevBackupCount = FALSE
+ DevRouteDiscard = FALSE
 INVARIANT NoEarlyEffect
 INVARIANT SuccessState
 INVARIANT OthersKept
